@@ -6,6 +6,7 @@ OUT=${1:-/tmp/detection_matrix.txt}
 : > "$OUT"
 export VERIF_MAX_CONFIRM=2
 for f in mutants/*.patch seeded/*/patch.diff; do
+  [ -f "$(dirname "$f")/patch_rebased.diff" ] && [ "$(basename "$f")" = "patch.diff" ] && f="$(dirname "$f")/patch_rebased.diff"
   case "$f" in
     mutants/*) name=$(basename "$f" .patch); prop=$(echo "$name" | cut -c1-3 | tr a-z A-Z);;
     *) name=$(basename "$(dirname "$f")"); prop=$(echo "$name" | cut -c1-3);;
